@@ -34,6 +34,14 @@ CLAIMED = {
             'TLA+ model Run (the run() loop over the contract ExpectAbs against scripted child programs) checked by TLC; the real run() executed with run.spawn rebound to a scripted dialogue child, traces validated by TLC against ExpectTrace (contract + run() clauses: output exactly once, one answer per occurrence, callbacks with the state dictionary)',
             'TLC proves CollectedOnce / ReturnsWholeOutput / AnsweredOnce for every program, chunking and event table in the bound; about a thousand real run() executions (dict/list tables, string/function/method responses, EOF/TIMEOUT events, bytes/unicode) are judged event by event by TLC; real children for the exit status',
             'dialogue child is scripted; virtual timeouts', '5 C12', 'run'),
+    'C13': ('model_checking',
+            'TLA+ model Launch: split_command_line as a character-class state machine with three quoting styles (RoundTrip checked by TLC over every argument list in the bound), PATH resolution (which) over every layout, configuration pass-through table; every TLC-enumerated case replayed on split_command_line / which() and sampled through real pty and Popen children reporting argv, exe, cwd, environ, winsize, ECHO, SIGHUP',
+            'TLC enumerates ~91k (quick) / ~4M (thorough) quoted command lines, 1,710 PATH layouts and 204 configurations with the expected result; each is an implementation test against the real code; real probe children report what they were started with',
+            'probe children are the oracle for the configuration half; PopenSpawn executable lookup is subprocess\'s', '5 C13', 'launch'),
+    'C16': ('model_checking',
+            'TLA+ model Repl (run_command over ExpectAbs against a REPL environment with prompts sharing a prefix) checked by TLC for every chunking; the real REPLWrapper driven against a scripted REPL (blocking and awaited) with TLC trace validation (ExpectTrace: contract + C16 clauses), plus generated commands with known output on the real bash and python REPLs',
+            'TLC proves OwnOutput / Usable for every command sequence and chunking in the bound; hundreds of command sequences through the real wrapper are judged by TLC (each expect call against the contract, each return value against the command\'s own output); real REPLs up to hundreds of KB',
+            'zsh not installed; large real outputs compared directly', '5 C16', 'repl'),
     'C14': ('model_checking',
             'TLA+ model AsyncExpect (expect_async + PatternWaiter on an asyncio loop/transport model, over ExpectImpl) checked by TLC for every arrival schedule; histories mixing blocking and awaited calls run through the real expect_async on a virtual-time asyncio loop with a hand-fed transport, traces validated by TLC against the contract ExpectAbs (ExpectTrace)',
             'TLC proves conservation (also of what the caller is given), no lost result, TIMEOUT only without occurrence, genuine/leftmost/lowest index on the awaited path; real awaited executions are judged event by event against the same contract the blocking path is bound to (C01-C04), so parity is decided by TLC',
@@ -90,6 +98,10 @@ def main():
              'kind_free_text': 'TLC model of the asyncio path + TLC trace validation of real awaited executions on a virtual event loop'},
             {'name': 'run', 'path': 'spec/Run.tla spec/ExpectTrace.tla harness/checks/run_check.py', 'serves_properties': ['C12'],
              'kind_free_text': 'TLC model of run() + TLC trace validation of real run() executions against scripted dialogue children'},
+            {'name': 'launch', 'path': 'spec/Launch.tla spec/MCLaunch.tla harness/checks/launch.py harness/peers/launch_probe.py', 'serves_properties': ['C13'],
+             'kind_free_text': 'TLC-enumerated split / which / configuration cases, one implementation test per case, real probe children'},
+            {'name': 'repl', 'path': 'spec/Repl.tla spec/ExpectTrace.tla harness/checks/repl.py', 'serves_properties': ['C16'],
+             'kind_free_text': 'TLC model of run_command + TLC trace validation on a scripted REPL + real bash/python REPLs'},
             {'name': 'patternforms', 'path': 'spec/PatternForms.tla harness/checks/c20.py', 'serves_properties': ['C20'],
              'kind_free_text': 'TLC-enumerated decision table, one implementation test per row'},
         ],
